@@ -449,6 +449,11 @@ func run(c *mc.Ctx) {
 	if c.Thorough() {
 		runCases(n*n*n, func(i int) [][]wire.Spec { return [][]wire.Spec{{rs[i/(n*n)], rs[(i/n)%n], rs[i%n]}} },
 			func(specs []wire.Spec) []string { return []string{"whole", "bound+1"} }, "triples")
+		sub := []int{0, 3, 4, 8, 9, 11, 13, 15, 22, 26, 29, 33}
+		m := len(sub)
+		runCases(m*m*m*m, func(i int) [][]wire.Spec {
+			return [][]wire.Spec{{rs[sub[i/(m*m*m)]], rs[sub[(i/(m*m))%m]], rs[sub[(i/m)%m]], rs[sub[i%m]]}}
+		}, func(specs []wire.Spec) []string { return []string{"whole", "bytewise"} }, "quadruples_sub12")
 	} else {
 		// quick: triples over a 12-element sub-alphabet
 		sub := []int{0, 3, 4, 8, 9, 11, 13, 15, 22, 26, 29, 33}
